@@ -12,7 +12,7 @@ def events(row):
     ev = []
     for r, b in zip(row['rounds'], row['blocks']):
         ev.append({'ev': 'Append', 'r': r, 'start': b['start'], 'stop': b['stop'], 'her': b['her_a'], 'stab': b['stab_a'], 'fin': b['fin_d'], 'fina': b['fin_a'], 'herd': b['her_d']})
-    ev.append({'ev': 'Close', 'cycle': row['cycle'], 'calStart': row['cal'].get('start', -1)})
+    ev.append({'ev': 'Close', 'cycle': row['cycle'], 'calStart': row['cal'].get('start', -1), 'calHer': row['cal'].get('her', []), 'calProj': row['cal'].get('proj', [])})
     first = row['sl_proj_d'][0]                                   # projected index of the first block, one entry per repetition
     for k in range(1, len(first)):
         ev.append({'ev': 'NextRep', 'base': first[k][0] - first[0][0]})
